@@ -110,10 +110,24 @@ def _merge_counts(dst, src):
         dst[k] = dst.get(k, 0) + v
 
 
+class CaseWallTimeout(BaseException):
+    """one case ran for more than CASE_WALL_S seconds of real time (the code under test hangs or crawls): a harness error
+    for that case - the verdicts of the other cases are still reported"""
+
+
+CASE_WALL_S = float(os.environ.get('VERIF_CASE_WALL_S', '180'))
+
+
+def _on_alarm(signum, frame):
+    raise CaseWallTimeout('case exceeded %.0f s of wall time' % CASE_WALL_S)
+
+
 def _chunk(args):
     modname, base_seed, start, count, tier, deadline, extra = args
+    import signal
     faulthandler.enable()
-    faulthandler.dump_traceback_later(600, exit=True)
+    faulthandler.dump_traceback_later(600 + count * 5, exit=True)
+    signal.signal(signal.SIGALRM, _on_alarm)
     check = __import__(modname, fromlist=['x'])
     if extra:
         check.configure(extra)
@@ -126,12 +140,18 @@ def _chunk(args):
         cs = case_seed(base_seed, i)
         sc = check.gen(Tape(cs * 2), tier)
         tape = Tape(cs * 2 + 1)
-        res, err = run_one(check, sc, tape)
+        signal.setitimer(signal.ITIMER_REAL, CASE_WALL_S)
+        try:
+            res, err = run_one(check, sc, tape)
+        finally:
+            signal.setitimer(signal.ITIMER_REAL, 0)
         agg['runs'] += 1
         agg['last'] = i
         if err is not None:
             if len(agg['errors']) < 3:
                 agg['errors'].append({'case': i, 'error': err, 'scenario': sc})
+            if 'CaseWallTimeout' in err:
+                break       # whatever still runs in this process is in an unknown state: hand back what there is
             continue
         agg['steps'] += res.get('steps', 0)
         agg['sim_time'] += res.get('sim_time', 0.0)
@@ -438,7 +458,7 @@ def main(check, argv=None):
             print('  WARNING: fresh-interpreter replay did not reproduce identically (rc=%s)' % fresh.returncode)
         print('VIOLATION property=%s replay=%s' % (check.PROP, path))
         reported.append(v['sig'])
-        exit_code = max(exit_code, 1)
+        exit_code = 1       # a violation decides the exit code, also when another case ended in a harness error
     for line in sorted(set(known_lines)):
         print(line)
 
